@@ -20,6 +20,7 @@ import (
 	"fmt"
 	"os"
 	"path/filepath"
+	"runtime"
 	"runtime/debug"
 	"sort"
 	"strings"
@@ -495,6 +496,11 @@ func (worldT) Simplify(c TCase) []TCase {
 			n.Ops[i].Mode = "clean"
 			out = append(out, n)
 		}
+		if op.K == "whold" {
+			n := twCloneCase(c)
+			n.Ops[i].K = "w"
+			out = append(out, n)
+		}
 		if op.K == "alter" && op.DurH != nil && (op.SgdH != nil || op.IgdH != nil) {
 			n := twCloneCase(c)
 			n.Ops[i].SgdH, n.Ops[i].IgdH = nil, nil
@@ -567,6 +573,14 @@ var (
 
 func TestVerifWorldT(t *testing.T) {
 	twT = t
+	// One P, whatever -test.cpu says.  go1.25.0's synctest support allocates the
+	// "bubble special" of a WaitGroup (runtime.getOrSetBubbleSpecial, reached from
+	// every WaitGroup.Add inside a bubble) from a fixalloc without taking
+	// mheap_.speciallock; with several Ps two allocations race, the specials list of
+	// a span becomes cyclic and the next Add spins for ever in
+	// (*mspan).specialFindSplicePoint with the M locked (not preemptible; observed
+	// with gdb under GOMAXPROCS 4 and 16, never with 1).
+	runtime.GOMAXPROCS(1)
 	engine.TwSetup()
 	meta.DataLogger = zap.NewNop() // the meta service sets it at start-up
 	twFS = simfs.Install()
@@ -599,7 +613,6 @@ type twRun struct {
 	indexDirty bool // series written since the harness last issued the index flush
 	stop       bool // a violation was recorded: finish
 	virtUp     time.Duration
-	inTick     bool
 	nodes      int
 	pendingKil *TOp
 	disk       *simfs.Disk
@@ -746,7 +759,7 @@ func (r *twRun) bubble() {
 					ls = ls[:60]
 				}
 				r.out.Violation = &core.Violation{Property: r.prop, Kind: "panic", Detail: fmt.Sprintf("panic: %v\n%s", p, strings.Join(ls, "\n")),
-					Attrs: map[string]string{"where": "harness goroutine"}}
+					Attrs: map[string]string{"frames": twInnerFrames(st)}}
 			}
 			// whatever still runs must be stopped, or its tickers keep the bubble alive for ever
 			func() {
@@ -780,6 +793,34 @@ func (r *twRun) bubble() {
 		r.readAll("end")
 	}
 	r.stopStore("final")
+}
+
+// twInnerFrames: the three innermost frames of the code under test below the panic.
+func twInnerFrames(st string) string {
+	var fr []string
+	seenPanic := false
+	for _, l := range strings.Split(st, "\n") {
+		if strings.HasPrefix(l, "panic(") {
+			seenPanic = true
+			fr = nil
+			continue
+		}
+		if !seenPanic || !strings.HasPrefix(l, "github.com/openGemini/openGemini/") || strings.Contains(l, "engine_test.") || strings.Contains(l, "verifsim") {
+			continue
+		}
+		f := strings.TrimPrefix(l, "github.com/openGemini/openGemini/")
+		if i := strings.LastIndex(f, "("); i > 0 {
+			f = f[:i]
+		}
+		if strings.Contains(f, "engine.Tw") || strings.Contains(f, "engine.runQuery") || strings.Contains(f, "engine.selectRows") {
+			continue
+		}
+		fr = append(fr, f)
+		if len(fr) == 3 {
+			break
+		}
+	}
+	return strings.Join(fr, "<")
 }
 
 func twMust(err error, what string) {
@@ -850,6 +891,9 @@ func (r *twRun) startStore() {
 		if err != nil {
 			// the real cluster manager would retry; nothing in a fault-free world may make it fail
 			r.violation("store_start_failed", fmt.Sprintf("incarnation %d: Assign(pt %d) failed: %v", r.inc, pt, err), nil)
+			// nothing of the half-started engine may stay behind: its tickers would keep the bubble alive
+			_ = r.eng.Close()
+			r.eng, r.ei = nil, nil
 			return
 		}
 	}
